@@ -141,40 +141,11 @@ theorem C17_complete (e : Env) (vb : List Ref) (blobRef : Ref)
 
 /-- the hypothesis of `C17_complete` is satisfiable by a five-hop chain through a directory, a
 merge set, a static set and a file -/
-example : ValidChain exEnv ([1, 2, 3, 4, 5] ++ [6]) :=
-  (C17_sound exEnv true [some 1, some 2, some 3, some 4, some 5] 6 false 6 (by decide)).2.2.elim
-    (fun vb h => by
-      have : vb = [1, 2, 3, 4, 5] := by
-        have := h.1
-        cases vb with
-        | nil => simp at this
-        | cons a t =>
-          simp only [List.map_cons, List.cons.injEq, Option.some.injEq] at this
-          obtain ⟨rfl, h2⟩ := this
-          cases t with
-          | nil => simp at h2
-          | cons a t =>
-            simp only [List.map_cons, List.cons.injEq, Option.some.injEq] at h2
-            obtain ⟨rfl, h3⟩ := h2
-            cases t with
-            | nil => simp at h3
-            | cons a t =>
-              simp only [List.map_cons, List.cons.injEq, Option.some.injEq] at h3
-              obtain ⟨rfl, h4⟩ := h3
-              cases t with
-              | nil => simp at h4
-              | cons a t =>
-                simp only [List.map_cons, List.cons.injEq, Option.some.injEq] at h4
-                obtain ⟨rfl, h5⟩ := h4
-                cases t with
-                | nil => simp at h5
-                | cons a t =>
-                  simp only [List.map_cons, List.cons.injEq, Option.some.injEq] at h5
-                  obtain ⟨rfl, h6⟩ := h5
-                  cases t with
-                  | nil => rfl
-                  | cons a t => simp at h6
-      exact this ▸ h.2)
+example : ValidChain exEnv ([1, 2, 3, 4, 5] ++ [6]) := by
+  refine ⟨⟨.share (some 2) true none, []⟩, some 2, true, none, rfl, rfl, rfl, by simp [Unexpired], ?_⟩
+  refine Or.inr ⟨2, [3, 4, 5, 6], rfl, rfl, Or.inr ⟨rfl, ?_⟩⟩
+  exact ⟨⟨⟨.directory 3, [9]⟩, rfl, by simp [links]⟩, ⟨⟨.staticSet [] [4], []⟩, rfl, by simp [links]⟩,
+    ⟨⟨.staticSet [5] [], []⟩, rfl, by simp [links]⟩, ⟨⟨.file [6], []⟩, rfl, by simp [links]⟩, trivial⟩
 
 /-- completeness for assembled downloads: a valid chain from a transitive share -/
 theorem C17_complete_assemble (e : Env) (vb : List Ref) (blobRef : Ref)
